@@ -18,12 +18,14 @@ theorem all_subsets_consistent_v2 : (subsets paseto_v2.nFeatures).all (consisten
 theorem all_subsets_consistent_v3 : (subsets paseto_v3.nFeatures).all (consistent paseto_v3) = true := by decide +kernel
 theorem all_subsets_consistent_v4 : (subsets paseto_v4.nFeatures).all (consistent paseto_v4) = true := by decide +kernel
 
-/-- gates are at item level only (no `cfg!`, no gated statements inside function bodies): the source
-    of an included item does not depend on the feature selection, so an operation available in a
-    reduced build is the same code as in the full build -/
+/-- gates are at top item level only: no `cfg!`, no gated statements inside function bodies, and no gated
+    associated items inside `impl` / `trait` bodies (a gated associated item of a trait impl would silently fall
+    back to the trait's default when the feature is off).  Hence the source of an included item does not depend
+    on the feature selection, so an operation available in a reduced build is the same code as in the full build. -/
 theorem gates_item_level :
     paseto_v1.stmtLevelGates = 0 ∧ paseto_v2.stmtLevelGates = 0 ∧ paseto_v3.stmtLevelGates = 0 ∧
-    paseto_v4.stmtLevelGates = 0 := by decide
+    paseto_v4.stmtLevelGates = 0 ∧
+    paseto_v1.innerGates = 0 ∧ paseto_v2.innerGates = 0 ∧ paseto_v3.innerGates = 0 ∧ paseto_v4.innerGates = 0 := by decide
 
 /-- closure is extensive and idempotent on the extracted tables (all subsets) -/
 theorem closure_extensive_idempotent_v4 :
@@ -33,7 +35,7 @@ theorem closure_extensive_idempotent_v4 :
 
 /-! non-vacuity: the predicate is falsifiable — a reference from a `verifying` context to an item only
     present with `signing` is inconsistent for the subset {verifying} -/
-example : consistent { nFeatures := 2, edges := [(0, 1)], refs := [⟨.feat 1, .feat 0⟩], stmtLevelGates := 0 } 2 = false := by decide
+example : consistent { nFeatures := 2, edges := [(0, 1)], refs := [⟨.feat 1, .feat 0⟩], stmtLevelGates := 0, innerGates := 0 } 2 = false := by decide
 example : paseto_v4.nFeatures = 9 := by decide
 
 end PM.C19
